@@ -123,6 +123,10 @@ class Unit:
                     continue
                 new.append(l)
             text = '\n'.join(new)
+        if kv.get('static'):
+            # R10: `const X: &str` needs an explicit 'static inside verus! (no executable effect)
+            text = text.replace(': &str', ": &'static str")
+            self.rewrites.append(dict(rule='R10', item='%s %s' % (kind, name), added="'static"))
         if kv.get('pub'):
             # R7: widen visibility of a copied type definition (no executable effect) so that
             # public spec functions may mention it
